@@ -5,6 +5,7 @@ import HappyProofs.C20.Reservoir
 import HappyProofs.C20.TopKMain
 import HappyProofs.C20.MerkleDiff
 import HappyProofs.C20.MerkleExt
+import HappyProofs.C20.MerkleState
 import HappyProofs.C20.SeqInst
 /-!
 # C20 — property theorems
@@ -345,5 +346,78 @@ example : diffTrees (fun k v => 2 * (100 * k + v)) (fun a b => 2 * (1000000 * a 
     (build [(1, 0), (2, 0), (3, 0)]) (build [(1, 0), (2, 5), (3, 0), (4, 1)]) = [(1, 2), (2, 3), (3, 4)] := by
   decide
 example : SortedKeys [(1, 0), (2, 5), (3, 0), (4, 1)] := by unfold SortedKeys; decide
+
+/-! ### the stateful tree: the laws hold after every operation sequence
+
+`MerkleTree` stores its tree; `update` / `remove` must rebuild it, whatever the new value is (an object
+equal to the old one, the same object changed in place, a value equal under `==` but serialised
+differently).  In the model they do, so after any two call sequences on any two initial maps the diff
+of the *stored* trees is judged correctly against the *logical* maps (what the calls stored). -/
+
+/-- after any sequence of `update` / `remove` calls the stored tree is the tree of the present
+    contents, the contents are sorted with distinct keys, and they are the logical map (`mlogical`) -/
+theorem merkle_root_tracks_data (m : List (Nat × Nat)) (ops : List MOp) :
+    ((MT.ofList m).run ops).root = build ((MT.ofList m).run ops).data ∧
+      SortedKeys ((MT.ofList m).run ops).data ∧
+      ((MT.ofList m).run ops).data = mlogical (MT.ofList m).data ops :=
+  ⟨(MT.run_inv _ ops (MT.ofList_inv m)).fresh, (MT.run_inv _ ops (MT.ofList_inv m)).sorted, MT.run_data _ ops⟩
+
+/-- both diff clauses, for the stored trees of two replicas after arbitrary call sequences, against
+    the logical maps -/
+theorem merkle_ops_diff_laws (hl hc : Nat → Nat → Nat) (ma mb : List (Nat × Nat)) (opsA opsB : List MOp)
+    (inj : HashInjOnOpt hl hc ((MT.ofList ma).run opsA).root ((MT.ofList mb).run opsB).root) :
+    merkleEmptyIffEqual (mlogical (MT.ofList ma).data opsA) (mlogical (MT.ofList mb).data opsB)
+        (MT.diff hl hc ((MT.ofList ma).run opsA) ((MT.ofList mb).run opsB)) = true ∧
+      merkleCovers (mlogical (MT.ofList ma).data opsA) (mlogical (MT.ofList mb).data opsB)
+        (MT.diff hl hc ((MT.ofList ma).run opsA) ((MT.ofList mb).run opsB)) = true := by
+  have ia := MT.run_inv _ opsA (MT.ofList_inv ma)
+  have ib := MT.run_inv _ opsB (MT.ofList_inv mb)
+  rw [← MT.run_data, ← MT.run_data]
+  unfold MT.diff
+  rw [ia.fresh, ib.fresh] at inj ⊢
+  exact ⟨merkle_diff_empty_iff_equal hl hc _ _ ia.sorted ib.sorted inj,
+    merkle_diff_covers hl hc _ _ ia.sorted ib.sorted inj⟩
+
+/-- non-vacuity: a record replaced (`upd 2 7`), the other replica following, a key dropped on one side -/
+example :
+    let A := (MT.ofList [(1, 0), (2, 0), (3, 0)]).run [.upd 2 7, .del 3]
+    let B := (MT.ofList [(1, 0), (2, 0), (3, 0)]).run [.upd 2 7]
+    A.data = [(1, 0), (2, 7)] ∧ B.data = [(1, 0), (2, 7), (3, 0)] ∧
+      MT.diff (fun k v => 2 * (100 * k + v)) (fun a b => 2 * (1000000 * a + b) + 1) A B ≠ [] := by decide
+
+/-! ### "equal" read as Python's `==` on dicts
+
+`{k: 1} == {k: 1.0}` in Python, but the tree hashes `repr(value)`: the code that exists reports a
+difference between two maps that are equal as dicts (variant `current`, finding
+`merkle/diff/nonempty-but-python-equal`).  A tree that hashed a canonical form of each value
+(`canon`: serialisation id ↦ equality class) meets both clauses under that reading (variant
+`repaired`). -/
+
+theorem merkle_diff_python_equal_repaired (canon : Nat → Nat) (hl hc : Nat → Nat → Nat)
+    (la lb : List (Nat × Nat)) (sa : SortedKeys la) (sb : SortedKeys lb)
+    (inj : HashInjOnOpt hl hc (build (mapVals canon la)) (build (mapVals canon lb))) :
+    merkleEmptyIffEqualC canon la lb (diffTrees hl hc (build (mapVals canon la)) (build (mapVals canon lb))) = true ∧
+      merkleCoversC canon la lb (diffTrees hl hc (build (mapVals canon la)) (build (mapVals canon lb))) = true := by
+  have h1 := merkle_diff_empty_iff_equal hl hc _ _ (mapVals_sorted canon la sa) (mapVals_sorted canon lb sb) inj
+  have h2 := merkle_diff_covers hl hc _ _ (mapVals_sorted canon la sa) (mapVals_sorted canon lb sb) inj
+  unfold merkleEmptyIffEqual at h1
+  unfold merkleCovers at h2
+  unfold merkleEmptyIffEqualC merkleCoversC pyEqualMaps
+  simp only [mapVals_keys, lookupKV_mapVals] at h1 h2
+  exact ⟨h1, h2⟩
+
+/-- the code that exists: `1` (id 1) and `1.0` (id 16) are one equality class, two serialisations —
+    the maps are equal as dicts and the diff is not empty -/
+theorem merkle_python_equal_nonempty_current :
+    pyEqualMaps (fun v => if v = 16 then 1 else v) [(0, 1)] [(0, 16)] = true ∧
+      merkleEmptyIffEqualC (fun v => if v = 16 then 1 else v) [(0, 1)] [(0, 16)]
+        (diffTrees (fun k v => 2 * (100 * k + v)) (fun a b => 2 * (1000000 * a + b) + 1)
+          (build [(0, 1)]) (build [(0, 16)])) = false := by decide
+
+/-- … and the same two maps through the canonical form: empty diff (non-vacuity of the repaired theorem) -/
+example :
+    diffTrees (fun k v => 2 * (100 * k + v)) (fun a b => 2 * (1000000 * a + b) + 1)
+      (build (mapVals (fun v => if v = 16 then 1 else v) [(0, 1)]))
+      (build (mapVals (fun v => if v = 16 then 1 else v) [(0, 16)])) = [] := by decide
 
 end HappyModel.C20
